@@ -24,6 +24,7 @@ ASSUMPTIONS = ['the explicit translation of e.xml_x = v is the one the README do
                'insertion order)', 'children are minimal unchecked instances']
 TIMEOUT = {'quick': 600, 'thorough': 2400}
 NSHARDS = 16
+BAD_VALUE = ('@@not-a-valid-value@@', 3.25)      # neither a token of any enumeration nor a number / plain string
 
 
 def plan(tier, seed):
@@ -60,6 +61,18 @@ def apply(surface, e, op, lib, fresh):
             r = lib.call(e.replace_child, found, new) if found is not None else lib.call(e.add_child, new)
     elif kind == 'val':
         val = lib.default_value(ccls)
+        if surface == 'shortcut':
+            r = lib.call(setattr, e, attr, val)
+        else:
+            found = first_of(e, ccls)
+            if found is not None:
+                r = lib.call(setattr, found, 'value_', val)
+            else:
+                c = lib.call(ccls, val)
+                r = lib.call(e.add_child, c[1]) if c[0] == 'ok' else c
+    elif kind == 'badval':
+        # a plain value the child's type must refuse, on both surfaces
+        val = BAD_VALUE
         if surface == 'shortcut':
             r = lib.call(setattr, e, attr, val)
         else:
@@ -143,8 +156,9 @@ def run_shard(shard, tier, seed):
             for s in alpha:
                 ccls = lib.child_cls(s)
                 has_val = lib.default_value(ccls) is not None and not lib.has_required_attrs(ccls)
-                script = [('read', s), ('el', s), ('read', s)] + ([('val', s), ('read', s)] if has_val else []) + \
-                         [('el', s), ('read', s), ('none', s), ('read', s)]
+                script = [('read', s), ('el', s), ('read', s)] + ([('val', s), ('read', s), ('badval', s), ('read', s)]
+                                                                 if has_val else []) + \
+                         [('el', s), ('read', s), ('none', s), ('read', s)] + ([('badval', s), ('read', s)] if has_val else [])
                 evals += 1
                 nontriv += 1
                 d = run_script(cls, script, lib)
@@ -189,7 +203,7 @@ def run_shard(shard, tier, seed):
                     ccls = lib.child_cls(s)
                     kinds = ['el', 'el', 'none', 'read']
                     if lib.default_value(ccls) is not None and not lib.has_required_attrs(ccls):
-                        kinds.append('val')
+                        kinds += ['val', 'badval']
                     script.append((rnd.choice(kinds), s))
                 evals += 1
                 nontriv += 1
